@@ -382,6 +382,44 @@ def inst_dask_int_index_then(kind):
     return Instance(f"dask_int_index[{kind}]", body, dict(kind=kind), unit="slice_with_int_dask_array + Blockwise._accept_slice", api_replay=api)
 
 
+def inst_reshape_then_int(kind):
+    """an integer index applied to a reshape that only drops / adds length-1 axes (x of shape (n, 1): x.ravel()[i],
+    x.reshape(n, 1, 1)[i, 0]): the optimizer has to get through it -- pushing the integer below the Reshape would leave a 0-d
+    operand -- and the result keeps the advertised shape.  Values are not decided here (reshape of symbolic extents)."""
+    def body(E):
+        from . import catalog
+
+        w = catalog.W(E)
+        x = catalog.source(w, E, "x", (2, 1), chunks=[None, (1,)])
+        coll = w.fn(catalog.NC, "new_collection")(x.node)
+        n = x.node.shape[0]
+        i = E.int("i", 0)
+        E.assume(i < n)
+        RSm = "dask_array.manipulation._reshape"
+        if kind == "ravel()[i]":
+            out, shape = w.fn(RSm, "reshape")(coll, (n,))[i], ()
+        else:
+            out, shape = w.fn(RSm, "reshape")(coll, (n, 1, 1))[i, 0], (1,)
+        E.ensure("advertised-shape", EQ(tuple(out.shape), tuple(shape)))
+        for stage in ("simplified", "lowered"):
+            st = catalog.stages(E, w, out.expr, {stage})[stage]
+            E.ensure(f"{stage}-keeps-the-shape", EQ(tuple(st.shape), tuple(shape)))
+
+    def api(values):
+        import dask_array as da
+
+        cs = (values["x0_0"], values["x0_1"])
+        n, i = sum(cs), values["i"]
+        if n > 5000:
+            return dict(ok=False, detail="outside API replay range")
+        X = np.arange(n, dtype="f8").reshape(n, 1)
+        x = da.from_array(X, chunks=(cs, (1,)))
+        got, want = (x.ravel()[i], X.ravel()[i]) if kind == "ravel()[i]" else (x.reshape(n, 1, 1)[i, 0], X.reshape(n, 1, 1)[i, 0])
+        return dict(ok=bool(np.array_equal(got.compute(scheduler="sync"), want)), detail=f"{kind}, x of shape ({n}, 1) chunked {cs}, i={i}")
+
+    return Instance(f"reshape_then_int[{kind}]", body, dict(kind=kind), unit="Reshape._accept_slice", api_replay=api)
+
+
 def inst_refusal(kind):
     """index forms the implementation does not support must raise, not return data: an integer dask array next to a list /
     NumPy array index on another axis, or two list indices (x's chunk sizes symbolic)"""
@@ -472,6 +510,8 @@ def instances(tier):
     out.extend(_program_instances(tier))
     for kind in ("dask-int+list", "dask-int+ndarray", "list+list"):
         out.append(inst_refusal(kind))
+    for kind in ("ravel()[i]", "reshape(n,1,1)[i,0]"):
+        out.append(inst_reshape_then_int(kind))
     for kind in ("x[i,1]", "x[1,i]", "x[i][:,a:]", "x[i][::2]"):
         out.append(inst_dask_int_index_then(kind))
     out.append(inst_vindex_bounds(1, 1))
